@@ -49,14 +49,14 @@ PROPS = {
     "C02": {"units": ["U3", "U4", "U15", "U20"] + RUNTIME_ALL, "safety_units": ["U6", "U7"]},
     "C03": {"units": ["U3", "U4", "U15", "U19", "U20"] + RUNTIME_ALL},
     "C14": {"units": ["U4", "U11", "U20"], "safety_units": ["U11"]},
-    "C15": {"units": RUNTIME_ALL},
-    "C04": {"units": ["U3", "U4", "U15", "U20"] + RUNTIME_ALL, "safety_units": ["U6", "U6b", "U7", "U20"] + U9 + U16},
+    "C15": {"units": RUNTIME_ALL + ["U10", "U10b", "U18", "U19"]},
+    "C04": {"units": ["U3", "U4", "U15", "U20", "U10b", "U18"] + RUNTIME_ALL, "safety_units": ["U6", "U6b", "U7", "U20", "U10b", "U18"] + U9 + U16},
     "C05": {"units": ["U3", "U4", "U6", "U6b", "U8"], "safety_units": ["U6", "U8"]},
     "C06": {"units": ["U2", "U3", "U4", "U6", "U7", "U8", "U15"]},
     "C07": {"units": ["U10b", "U18"] + RUNTIME_ALL},
     "C08": {"units": ["U10", "U10b"] + RUNTIME_ALL, "safety_units": ["U17"]},
     "C09": {"units": ["U10", "U10b", "U18", "U19"] + RUNTIME_ALL, "safety_units": ["U10", "U10b", "U18", "U19"]},
-    "C20": {"units": RUNTIME_ALL},
+    "C20": {"units": RUNTIME_ALL + ["U10", "U10b", "U18", "U19"]},
     "C10": {"units": RUNTIME_ALL},
     "C11": {"units": ["U1", "U2", "U3", "U4", "U5", "U19", "U20"], "safety_units": ["U1", "U2", "U3", "U4", "U5"]},
     "C12": {"units": ["U1", "U2", "U4", "U5", "U12"], "safety_units": ["U12"]},
